@@ -459,3 +459,22 @@ Fixpoint wobs (chunk : nat) (w : world) (hist : list step) : list val :=
 Definition run_obs (chunk : nat) (s : bytes) (c : option Z) (sk : bool) (tm : option bool) (lg : bool)
            (lim : Z) (hist : list step) : val :=
   VList (wobs chunk (init_world s c sk tm lg lim) hist).
+
+(* ------------------------------------------------------------------ two requests alive at the same time *)
+(* Two independent requests (two environs, two server streams: files 0 and 1) in ONE heap: the model has no
+   state outside the environ records and the files they point to, so whatever one request does cannot reach
+   the other (theorem C10_two_live_independent).  Copies of either get the indices 2, 3, ... *)
+Definition init_req_at (i : nat) (c : option Z) (sk : bool) (tm : option bool) (lg : bool) (lim : Z) : req :=
+  mkReq c sk tm lg i None lim None true.
+
+Definition init_world2 (s1 : bytes) (c1 : option Z) (sk1 : bool) (tm1 : option bool) (lg1 : bool) (lim1 : Z)
+                       (s2 : bytes) (c2 : option Z) (sk2 : bool) (tm2 : option bool) (lg2 : bool) (lim2 : Z) : world :=
+  mkWorld (mkHeap (fun j => if Nat.eqb j 0 then mkFile s1 0 KOrig else mkFile s2 0 KOrig) 2)
+          [init_req_at 0 c1 sk1 tm1 lg1 lim1; init_req_at 1 c2 sk2 tm2 lg2 lim2].
+
+Definition run_obs2 (chunk : nat)
+           (a : bytes * option Z * bool * option bool * bool * Z)
+           (b : bytes * option Z * bool * option bool * bool * Z) (hist : list step) : val :=
+  let '(s1, c1, sk1, tm1, lg1, lim1) := a in
+  let '(s2, c2, sk2, tm2, lg2, lim2) := b in
+  VList (wobs chunk (init_world2 s1 c1 sk1 tm1 lg1 lim1 s2 c2 sk2 tm2 lg2 lim2) hist).
